@@ -64,7 +64,7 @@ type interpreter struct {
 // interpreted code never reads through our externals.
 var initSet = map[string]bool{
 	"golang.org/x/exp/rand": true, "unicode": true, "unicode/utf8": true, "strconv": true, "math/bits": true,
-	"bytes": true, "strings": true,
+	"bytes": true, "strings": true, "io": true, "bufio": true,
 }
 
 // nativeFn is an engine-implemented function value handed to target code.
